@@ -124,6 +124,33 @@ def sent_worker(_):
     return rows
 
 
+def helper_sentinel_worker(task):
+    """A scalar helper called with a marker as the value and nothing else: outcome per path."""
+    hid, sname, fam = task
+    ctx = get_ctx()
+    h = ctx.helpers[hid]
+    from ..scenarios import attr_spec_sym
+    from ..runs import run_function as _rf
+
+    def conf(cfg):
+        cfg.event_filter = _red
+        cfg.rawset_raises = False
+        cfg.user_may_raise = False
+        cfg.loop_unroll = 1
+        provrun.set_family(cfg, ctx, fam)
+    ps = h.params()
+    vname = ps["positional"][0] if ps["positional"] else None
+    if vname is None:
+        return {"task": task, "rows": None}
+    kw = {vname: Sentinel(sname, False), "_inplace": Const(False), "_if": Const(True)}
+    facts = {("truthy", ("attr_spec", ".is_collection")): fam is not None}
+    it, outs = _rf(ctx.p, ctx.H, h.impl, [attr_spec_sym(), recv_sym()], kw, family=fam, configure=conf, extra_facts=facts,
+                   setattr_mode="inline")
+    rows = [{"kind": o.kind, "ret": vrepr(o.value) if o.kind == "ok" else o.value.cls,
+             "raw": [tuple(map(str, e)) for e in o.state.trace if e[0] == "RAW"]} for o in outs]
+    return {"task": task, "rows": rows, "functions": sorted(it.functions_entered)}
+
+
 def _check_main(ctx, rep: Report):
     # IF (shared with C01)
     rep.rules["C05.IF"] = "with _if=False the only outcome is `return self` with no event"
@@ -148,6 +175,26 @@ def _check_main(ctx, rep: Report):
     rep.oblige("C05.SENT", "mutate_value[UNCHANGED]", not bad)
     if bad:
         rep.violate(Violation("C05.SENT", "C05.SENT|mutate_value|UNCHANGED", f"mutate_value(new_value=UNCHANGED) does not return the old value untouched: {bad[0]}", "", "mutate_value"))
+
+    # helper level: the marker as the only argument
+    tasks_s = [(hid, sname, fam) for hid in ("WithAttrMethod.with_attr", "UpdateAttrMethod.update_attr") if hid in ctx.helpers
+               for sname in ("UNCHANGED", "MISSING") for fam in (None, "sequence", "mapping", "set")]
+    if len(tasks_s) < 16:
+        raise AnalysisError("C05.SENT: with_attr / update_attr helpers not found")
+    for r in pmap(helper_sentinel_worker, tasks_s):
+        hid, sname, fam = r["task"]
+        if r["rows"] is None:
+            raise AnalysisError(f"C05.SENT: {hid} has no value parameter")
+        rep.functions |= set(r["functions"])
+        rep.evaluations += len(r["rows"])
+        bad = [row for row in r["rows"] if row["kind"] == "ok" and (row["ret"] != "self" or row["raw"])]
+        rep.oblige("C05.SENT", f"{hid}({sname})[{fam}]", not bad, f"{len(r['rows'])} paths")
+        if bad:
+            b = bad[0]
+            what = "writes " + b["raw"][0][2] if b["raw"] else f"returns `{b['ret']}` instead of the receiver"
+            rep.violate(Violation("C05.SENT", f"C05.SENT|helper|{hid}|{sname}|{fam}",
+                                  f"{hid} called with {sname} as the value (attribute kind: {fam or 'scalar'}) is not a no-op returning the receiver: it {what}",
+                                  "", hid))
 
     # FWD + funnel
     rep.rules["C05.FWD"] = "_inplace reaches the behaviour: returned object identity and the target of raw writes per flag value; funnel clauses of C05.EQV"
